@@ -223,7 +223,9 @@ class TriangularLinearOperator(LinearOperator, _TriangularLinearOperatorBase):
             res = res.expand(self._tensor.batch_repeat + res.shape[-2:])
         else:
             # TODO: Can we be smarter here?
-            res = self._tensor.solve(right_tensor=right_tensor)
+            # (the generic LinearOperator.solve assumes a positive definite matrix, which a triangular factor -
+            # e.g. a scaled one, or one with a diagonal added - is not)
+            res = torch.linalg.solve_triangular(self.to_dense(), right_tensor, upper=self.upper)
 
         if squeeze:
             res = res.squeeze(-1)
